@@ -3,8 +3,8 @@ package main
 // C02 — total, should-total and diff.
 
 import (
-	"go/token"
 	"fmt"
+	"go/token"
 
 	"golang.org/x/tools/go/ssa"
 )
@@ -277,34 +277,37 @@ func ruleP02Diff(p *Prog, r *Report) {
 		}
 		// Plus: result minutes = d.InMinutes() + additional.InMinutes() (via safemath.Add)
 		okPlus := false
-		eachInstr(plus, func(in ssa.Instruction) {
-			c, ok := in.(ssa.CallInstruction)
-			if !ok {
-				return
-			}
-			if g := staticCallee(c); g != nil && fnBase(g) == "Add" && len(c.Common().Args) == 2 {
-				n1, r1, _, _ := methodCall(c.Common().Args[0])
-				n2, r2, _, _ := methodCall(c.Common().Args[1])
-				if n1 == "InMinutes" && n2 == "InMinutes" && r1 != nil && r2 != nil {
-					recvIsSelf := func(v ssa.Value) bool {
-						return leafKey(v) == leafKey(plus.Params[0]) || sameValue(v, plus.Params[0]) || isLoadOfParamCopy(v, plus.Params[0])
-					}
-					if (recvIsSelf(r1) && strip(r2) == ssa.Value(plus.Params[1])) || (recvIsSelf(r2) && strip(r1) == ssa.Value(plus.Params[1])) {
-						// and the sum is what is returned
-						sum := resultOf(c, 0)
-						for _, ret := range returnsOf(plus) {
-							if m, okd := p.durationMinutes(retResult(ret, 0)); okd && sum != nil && m.C == 0 && len(m.Terms) == 1 {
-								for k := range m.Terms {
-									if sameValue(m.leafV[k], sum) && m.Terms[k] == 1 {
-										okPlus = true
+		for _, vi := range virtualInstrs(plus) {
+			vi := vi
+			vi.run(func() {
+				c, ok := vi.in.(ssa.CallInstruction)
+				if !ok {
+					return
+				}
+				if g := staticCallee(c); g != nil && fnBase(g) == "Add" && len(c.Common().Args) == 2 {
+					n1, r1, _, _ := methodCall(c.Common().Args[0])
+					n2, r2, _, _ := methodCall(c.Common().Args[1])
+					if n1 == "InMinutes" && n2 == "InMinutes" && r1 != nil && r2 != nil {
+						recvIsSelf := func(v ssa.Value) bool {
+							return leafKey(v) == leafKey(plus.Params[0]) || sameValue(v, plus.Params[0]) || isLoadOfParamCopy(v, plus.Params[0])
+						}
+						if (recvIsSelf(r1) && strip(r2) == ssa.Value(plus.Params[1])) || (recvIsSelf(r2) && strip(r1) == ssa.Value(plus.Params[1])) {
+							// and the sum is what is returned
+							sum := resultOf(c, 0)
+							for _, ret := range returnsOf(plus) {
+								if m, okd := p.durationMinutes(retResult(ret, 0)); okd && sum != nil && m.C == 0 && len(m.Terms) == 1 {
+									for k := range m.Terms {
+										if sameValue(m.leafV[k], sum) && m.Terms[k] == 1 {
+											okPlus = true
+										}
 									}
 								}
 							}
 						}
 					}
 				}
-			}
-		})
+			})
+		}
 		r.check(okPlus, rule, "Plus", p.pos(plus.Pos()), "a.Plus(b) has a.InMinutes() + b.InMinutes() minutes", "Plus does not return the sum of both minute values")
 	}
 }
